@@ -5,8 +5,7 @@ from props import rt_common as R
 ID = "C02"; MODEL = "rt"; IMPL = "rt"
 COQ_PROP = "Properties/C02.v"; COQ_DIRS = ["Common", "CQueue", "Runtime"]
 COQ_MODULE = "Runtime.Model"; RUN_FN = "run"
-THEOREMS = ["C02_clock_monotone", "C02_now_is_event_time", "C02_dispatch_sorted_once",
-            "C02_add_at_or_after_now_ok", "C02_add_before_now_panics", "C02_run_total"]
+THEOREMS = ["C02_clock_monotone", "C02_now_is_event_time", "C02_dispatch_sorted_once", "C02_add_at_or_after_now_ok", "C02_add_before_now_panics", "C02_all_adds_ok_iff", "C02_run_reachable", "C02_run_total"]
 QUICK_N = 2500; THOROUGH_N = 150000
 RULE = ("scripts = random event program: handlers schedule follow-ups with add_event_in (zero, unit, bucket-sized delays) and"
         " with add_event at absolute times around the program's timestamps (so some lie in the past), pre-run add_event calls"
